@@ -12,7 +12,7 @@ use crate::{
     world::{Lane, Op, RunEnd},
 };
 
-fn case(seed: u64, lane: Lane, trace: bool) -> CaseOut {
+fn case(seed: u64, lane: Lane, trace: bool, stale_focus: bool) -> CaseOut {
     let mut r = Rng::new(seed ^ 0xC09);
     let mut k = Knobs::default();
     k.lane = lane;
@@ -33,6 +33,19 @@ fn case(seed: u64, lane: Lane, trace: bool) -> CaseOut {
     }
     h.cid_len[1] = *r.pick(&[4, 8, 20]);
     h.cid_lifetime_ms = if r.chance(50) { Some(*r.pick(&[30, 200, 2000])) } else { None };
+    // (token expiry under heavy loss and plaintext-visible reset tokens would end connections for
+    // reasons that are not this property's business)
+    h.retry_lifetime_ms = 10_000_000;
+    h.net.corrupt_pm = 0;
+    if stale_focus {
+        // connection IDs rotate quickly, connections end and their slots are taken over by new
+        // ones, and old datagrams (carrying long-retired CIDs) are replayed much later
+        h.cid_lifetime_ms = Some(*r.pick(&[20, 30, 60]));
+        h.net.replay_pm = *r.pick(&[200, 400]);
+        if h.cid_len[0] == 0 {
+            h.cid_len[0] = 8;
+        }
+    }
     for t in h.cli_t.iter_mut().chain([&mut h.srv_t]) {
         t.pad_to_mtu = false;
     }
@@ -44,13 +57,18 @@ fn case(seed: u64, lane: Lane, trace: bool) -> CaseOut {
         let at = r.below(4_000_000_000);
         h.ops.push((at, Op::Connect { from, tcfg: Box::new(h.cli_t[from - 1].clone()), app: Box::new(h.cli_app[from - 1].clone()) }));
     }
-    let n_close = r.below(4);
+    let n_close = if stale_focus { 2 + r.below(3) } else { r.below(4) };
     let mut closed = vec![];
     for _ in 0..n_close {
         let ep = 1 + r.usize(k.n_clients);
         let at = 200_000_000 + r.below(3_000_000_000);
         h.ops.push((at, Op::CloseOne { ep, ch: 0, code: 9 }));
         closed.push(ep);
+        if stale_focus {
+            // somebody else takes the freed slot shortly afterwards
+            let from = 1 + r.usize(k.n_clients);
+            h.ops.push((at + 300_000_000 + r.below(1_500_000_000), Op::Connect { from, tcfg: Box::new(h.cli_t[from - 1].clone()), app: Box::new(h.cli_app[from - 1].clone()) }));
+        }
     }
     let reconnect_focus = seed % 5 == 0;
     if reconnect_focus {
@@ -118,7 +136,9 @@ pub fn run(ctx: &Ctx) -> i32 {
     let t = Instant::now();
     let mut rep = Report::default();
     let g = Group { name: "multi-null", cases: ctx.tier.pick(300, 20_000), budget_s: ctx.tier.pick(50.0, 1200.0), exhaustive: false };
-    run_group(ctx, &mut rep, &g, |_, seed, trace| case(seed, Lane::Null, trace));
+    run_group(ctx, &mut rep, &g, |_, seed, trace| case(seed, Lane::Null, trace, false));
+    let g = Group { name: "stale-cid", cases: ctx.tier.pick(500, 20_000), budget_s: ctx.tier.pick(25.0, 600.0), exhaustive: false };
+    run_group(ctx, &mut rep, &g, |_, seed, trace| case(seed, Lane::Null, trace, true));
     finish(
         ctx,
         &rep,
